@@ -390,6 +390,22 @@ func (f *fz) c09One(idx int) bool {
 			Scenario: fmt.Sprintf("%s kinds=%v consdir=%v in=%d eg=%d hops=%d cur=%d local=%v epic=%v src=%s", sc.Shape, sc.Kinds, sc.ConsDirs, sc.InIf, sc.EgIf, h.NumHF, cur, sc.LocalHops, opts.Epic, srcForm),
 			Expect:   fmt.Sprintf("type %d code %d pointer %d", ex.typ, ex.code, ex.ptr)}
 	}
+	if f.panicOnly {
+		// C08 mode: same structured inputs, judged only by C08's statement
+		f.a.event("structured_error_case")
+		if res.Panic != "" {
+			f.violation("C08:panic:"+panicFunc(res.Stack), "router packet processing panicked on a structured error-provoking packet ("+cname+"): "+res.Panic,
+				mkWitness(s, v, "c09gen:"+cname, raw, in, &res))
+			return true
+		}
+		if res.Out != nil {
+			if _, err := rfix.ParseHdr(res.Out); err != nil {
+				f.violation("C08:malformed-output:structured:"+cname, "emitted packet is inconsistent: "+err.Error(), mkWitness(s, v, "c09gen:"+cname, raw, in, &res))
+			}
+		}
+		f.r.Class("c09gen:" + cname + "/" + outcomeOf(&res))
+		return true
+	}
 	if res.Panic != "" {
 		// a crash is C08's subject; here it only means that no SCMP message could be judged
 		f.r.Inconclusive("router-panic(judged-by-C08)")
